@@ -335,3 +335,27 @@ def judge(results, vmap, killed=False):
                 bad.append(("wrong-behaviour", "after defining %s, class %s: vector %d gives %r, its own declaration says %r" % (
                     r["defined"], wid, first, obs[first] if first < len(obs) else None, exp[first])))
     return bad
+
+
+# ---------------------------------------------------------------------------------------------- real sub-interpreters
+
+def run_in_new_interpreter(famdir, plan, vmap_unused, bytecode, equal_clock, optimize):
+    """one definition segment in a brand-new interpreter (needed for python -O: the optimisation level selects which bytecode
+    file the import system reads and writes, and it cannot be changed in a forked child)"""
+    import subprocess
+    verif = os.path.dirname(os.path.dirname(os.path.abspath(__file__)))
+    repo = os.environ.get("BV_REPO", "/repo")
+    code = ("import sys, json; sys.path.insert(0, %r); sys.path.insert(0, %r); from bv import procs; "
+            "procs.cli(%r, %r, %r, %r)" % (repo, verif, famdir, list(plan), bool(bytecode), bool(equal_clock)))
+    env = dict(os.environ)
+    env.pop("PYTHONDONTWRITEBYTECODE", None)
+    r = subprocess.run([sys.executable] + (["-O"] if optimize else []) + ["-c", code], capture_output=True, text=True, env=env, cwd=famdir)
+    results = [json.loads(l[7:]) for l in r.stdout.splitlines() if l.startswith("RESULT ")]
+    return results, r.stderr[-400:]
+
+
+def cli(famdir, plan, bytecode, equal_clock):
+    V = variant_catalogue()
+    vmap = {v["id"]: v for v in V}
+    r, w = os.pipe()
+    definer_main(famdir, plan, r, 1, False, bytecode, equal_clock, vmap)
